@@ -126,6 +126,58 @@ Theorem C02_fields_sum_is_input_plane_transform :
 Proof. exact (fun S R => fields_sum_is_plane_transform_explicit S R (fun _ => k0)). Qed.
 Print Assumptions C02_fields_sum_is_input_plane_transform.
 
+(* Wavefront.intensity of the result is the squared modulus of Wavefront.field at every sample
+   (the output fields are merged coherently where they overlap), for any per-field shifts;
+   [maxsize] = sys.maxsize bounds the output size as in lentil.field.boundary *)
+Theorem C02_intensity_is_squared_modulus_of_field :
+  forall (S : Scalar), is_ring S -> kernel_laws S -> forall (sq : Qc -> S)
+    (shift_of : field S -> Qc * Qc) (w : wavefront S) (dur duc : Qc) (shape pshape : option (Z * Z)) (os : Z)
+    (mask : option bmask) (dxr dxc : Qc) (Sr Sc Pr Pc : Z) (b : extent),
+  wptype w <> PtNone -> wps w = Some (dxr, dxc) ->
+  (forall f, In f (wdata w) -> exists a, fd f = D2 a) ->
+  match shape with None => wshape w | Some s => s end = (Sr, Sc) ->
+  match pshape with None => (Sr, Sc) | Some p => p end = (Pr, Pc) ->
+  0 < Sr -> 0 < Sc -> 0 < Pr -> 0 < Pc -> 1 <= os -> Sr * os < maxsize -> Sc * os < maxsize ->
+  (forall m, mask = Some m -> mnr m = Sr * os /\ mnc m = Sc * os) ->
+  mask_bbox mask (Sr * os) (Sc * os) = Ok b ->
+  exists w' o oi, propagate_dft sq shift_of w dur duc shape pshape os mask = Ok w' /\
+    wfield w' = Ok o /\ wintensity w' = Ok oi /\ nr oi = Sr * os /\ nc oi = Sc * os /\
+    (forall i j, 0 <= i < Sr * os -> 0 <= j < Sc * os -> get oi i j = (get o i j * kconj (get o i j))%K).
+Proof. exact propagate_dft_intensity. Qed.
+Print Assumptions C02_intensity_is_squared_modulus_of_field.
+
+(* the general form used by C04: whatever shift Field.shift assigns to a field, its chip is the
+   prop_shape*oversample box centred at fix(shift), and its samples are its Fraunhofer sum at the
+   sample's coordinate minus the (whole) shift *)
+Theorem C02_samples_with_field_shifts :
+  forall (S : Scalar), is_ring S -> kernel_laws S -> forall (sq : Qc -> S)
+    (shift_of : field S -> Qc * Qc) (w : wavefront S) (dur duc : Qc) (shape pshape : option (Z * Z)) (os : Z)
+    (mask : option bmask) (dxr dxc : Qc) (Sr Sc Pr Pc : Z) (b : extent),
+  wptype w <> PtNone -> wps w = Some (dxr, dxc) ->
+  (forall f, In f (wdata w) -> exists a, fd f = D2 a) ->
+  match shape with None => wshape w | Some s => s end = (Sr, Sc) ->
+  match pshape with None => (Sr, Sc) | Some p => p end = (Pr, Pc) ->
+  0 < Sr -> 0 < Sc -> 0 < Pr -> 0 < Pc -> 1 <= os ->
+  (forall m, mask = Some m -> mnr m = Sr * os /\ mnc m = Sc * os) ->
+  mask_bbox mask (Sr * os) (Sc * os) = Ok b ->
+  let ar := dft_alpha1 dxr dur (wwl w) (wfocal w) os in
+  let ac := dft_alpha1 dxc duc (wwl w) (wfocal w) os in
+  exists w' o, propagate_dft sq shift_of w dur duc shape pshape os mask = Ok w' /\
+    wshape w' = (Sr * os, Sc * os) /\
+    wfield w' = Ok o /\ nr o = Sr * os /\ nc o = Sc * os /\
+    (forall i j, 0 <= i < Sr * os -> 0 <= j < Sc * os ->
+      let u := i - (Sr * os) / 2 in let v := j - (Sc * os) / 2 in
+      get o i j = fold_right (fun x acc => (x + acc)%K) k0 (map (fun f =>
+        if inE b i j && inE (array_extent (Pr * os) (Pc * os) (qfix (fst (shift_of f))) (qfix (snd (shift_of f)))) u v
+        then match fd f with
+             | D2 a => (fourier_sum a ar ac (offr f) (offc f) (zq u - fst (shift_of f))%Qc (zq v - snd (shift_of f))%Qc
+                        * sq (qabs (ar * ac)%Qc))%K
+             | D0 _ => k0
+             end
+        else k0) (wdata w))).
+Proof. exact propagate_dft_chips. Qed.
+Print Assumptions C02_samples_with_field_shifts.
+
 (* non-vacuity: a two-field wavefront on the integers (kernel = 1), shape (2,3), prop_shape (1,2),
    oversample 2, a two-pixel mask: the hypotheses of C02_propagate_dft_samples hold, the window is
    rows 1..2 x columns 2..4 of the 4 x 6 output, a sample inside carries the sum of all input
